@@ -1,6 +1,8 @@
 // Property registry: which rules decide which clause of which property.
 package main
 
+import "golang.org/x/tools/go/ssa"
+
 func init() {
 	register(&propDef{
 		ID: "C17",
@@ -127,6 +129,38 @@ func init() {
 					ruleCloneDeep(c, "fresh/clonedeep", t[0], t[1])
 				}
 				c.floor("fresh/clonedeep", 9)
+			})
+		},
+	})
+	aligners := []string{"NW", "SW", "Fitted", "NWAffine", "SWAffine", "FittedAffine"}
+	register(&propDef{
+		ID: "C09",
+		Explanation: "sibling: for each of the six aligners, alignLetters and alignQLetters are compared as typed ASTs after canonicalisation (locals numbered by first use, alphabet.QLetters -> alphabet.Letters, X[e].L on a QLetters sequence -> X[e], *QLetters helper names -> *Letters, string literal contents and comments ignored): they must be the same program, which is the project's own mechanism for 'quality-carrying sequences give the same pairs'. argcheck: all twelve variants return ErrMatrixWrongSize under a comparison with alpha.Len() and ErrMatrixNotSquare inside the row loop before any table is indexed, and all six Align entry points return the four argument errors. livguard: every letter-index value (load from an alphabet.Index table) that flows through arithmetic into a subscript or a conversion to unsigned is sign-checked first: by a dominating comparison of that very value with 0, by an earlier loop over the same sequence whose negative edge returns and whose header dominates the use, or by a dominating AllValid/Validate call.",
+		NotDecided:  "path monotonicity, score bookkeeping, Format (value-level); that a validation loop covers every position (its bounds are value-level; the repository's validated-in-the-fill-loop idiom is accepted as is).",
+		Assumptions: []string{"alphabet.Index tables hold -1 exactly for letters outside the alphabet"},
+		Run: func(c *Ctx) {
+			c.guard("sibling", func() { ruleSibling(c, "sibling", aligners); c.floor("sibling", 6) })
+			c.guard("argcheck", func() { ruleArgCheck(c, "argcheck", aligners); c.floor("argcheck", 48) })
+			c.guard("livguard", func() {
+				var fns []*ssa.Function
+				for _, a := range aligners {
+					fns = append(fns, c.fn("align", a+".alignLetters"), c.fn("align", a+".alignQLetters"))
+				}
+				ruleLIVGuard(c, "livguard", fns)
+				c.floor("livguard", 60)
+			})
+		},
+	})
+	register(&propDef{
+		ID: "C10",
+		Explanation: "livguard: in kmerindex every base code looked up through the alphabet index table ((*Index).ForEachKmerOf, KmerOf, (*Index).KmerOf or whichever functions index an alphabet.Index) is sign-checked by a dominating comparison before it is converted to the unsigned k-mer word — necessary for 'no invalid letter inside a reported k-mer'. This decides one guard, not the index's correctness.",
+		NotDecided:  "the `high` watermark arithmetic, prefix-sum/bucket bounds, masks, GC/complement bit tricks, equality of reported positions with true occurrences (all value-level).",
+		Assumptions: []string{"alphabet.Index tables hold -1 exactly for letters outside the alphabet"},
+		Run: func(c *Ctx) {
+			c.guard("livguard", func() {
+				p := c.pkg("index/kmerindex")
+				ruleLIVGuard(c, "livguard", srcFuncs(c.SPkgs[p.PkgPath]))
+				c.floor("livguard", 4)
 			})
 		},
 	})
